@@ -58,6 +58,10 @@ OPTIONAL_COMBOS = [
     {'theta': F(lambda: np.array([0.5, 1.5, 1.0]))},
     {'fitter': F(lambda: __import__('rsatoolbox').model.fitter.fit_optimize)},
     {'weights': F(lambda: np.array([1.0, 2.0, 0.5, 1.5]))},
+    {'model_var': F(lambda: np.array([0.02, 0.03, 0.01])), 'diff_var': F(lambda: np.array([0.04, 0.02, 0.03])),
+     'noise_ceil_var': F(lambda: np.array([[0.02, 0.02], [0.03, 0.03], [0.01, 0.01]])), 'dof': 5},
+    {'model_var': F(lambda: np.array([0.02, 0.03, 0.01])), 'dof': 5}, {'diff_var': F(lambda: np.array([0.04, 0.02, 0.03])), 'dof': 5},
+    {'noise_ceil_var': F(lambda: np.array([[0.02, 0.02], [0.03, 0.03], [0.01, 0.01]])), 'dof': 5},
     {'reindex': False}, {'positive': True}, {'calc_noise_ceil': False}, {'k_rdm': 2, 'k_pattern': 2},
 ]
 SCOPE = tuple(p + '.' for p in ['rsatoolbox.rdm', 'rsatoolbox.data', 'rsatoolbox.model', 'rsatoolbox.inference', 'rsatoolbox.util'])
@@ -208,7 +212,30 @@ class Stock:
             return [lambda: eval_fixed]
         if pname == 'descriptor' and fname in ('num_index', 'bool_index'):
             return [lambda: ['a', 'b', 'a']]
-        extra = {'ci_percent': [lambda: 0.9], 'variance': [lambda: np.eye(5) * 0.01 + 0.001], 'size': [lambda: 4],
+        if pname == 'descriptor' and fname in ('check_descriptor_length', 'subset_descriptor', 'append_descriptor',
+                                                'check_descriptor_length_error'):
+            return [lambda: {'a': [1, 2, 3], 'b': np.array(['x', 'y', 'z']), 'index': [0, 1, 2]}]
+        if pname == 'dictionary' and fname == 'extract_dict':
+            return [lambda: {'a': np.arange(5.0), 'b': list('vwxyz')}]
+        if fname in ('t_tests', 't_test_0', 't_test_nc', 'all_tests', 'pair_tests', 'zero_tests', 'nc_tests'):
+            # a bootstrap result of 3 models over 6 samples
+            special = {'evaluations': [lambda: (np.arange(18.0).reshape(6, 3) % 7) / 10 + 0.1],
+                       'variances': [lambda: np.array([[0.02, 0.001, 0.0], [0.001, 0.03, 0.002], [0.0, 0.002, 0.01]])],
+                       'noise_ceil': [lambda: np.array([0.6, 0.9])], 'model_var': [lambda: np.array([0.02, 0.03, 0.01])],
+                       'diff_var': [lambda: np.array([0.04, 0.02, 0.03])],
+                       'noise_ceil_var': [lambda: np.array([[0.02, 0.02], [0.03, 0.03], [0.01, 0.01]])], 'dof': [lambda: 5]}
+            if fname == 't_test_0' or fname == 't_test_nc':
+                special['variances'] = [lambda: np.array([0.02, 0.03, 0.01])]
+            if fname == 't_test_nc':
+                special['noise_ceil'] = [lambda: 0.9]
+            if fname == 't_tests':
+                special['variances'] = [lambda: np.array([0.04, 0.02, 0.03])]
+            if pname in special:
+                return special[pname]
+        if pname == 'desc_new' and fname == 'append_descriptor':
+            return [lambda: {'a': [4], 'b': np.array(['w']), 'index': [0]}]
+        extra = {'category_idxs': [lambda: [1, 2, 4]], 'category_1_idxs': [lambda: [0, 1]], 'category_2_idxs': [lambda: [2, 4]],
+                 'ci_percent': [lambda: 0.9], 'variance': [lambda: np.eye(5) * 0.01 + 0.001], 'size': [lambda: 4],
                  'dissimilarities': [lambda: np.arange(1.0, 11.0)], 'family_index': [lambda: 1]}
         if pname in extra:
             return extra[pname]
@@ -379,6 +406,9 @@ def _self_factories(stock, owner):
         return [lambda: stock.model(k)]
     if name == 'Result':
         return [stock.result]
+    if name == 'ModelFamily':
+        from rsatoolbox.model.model_family import ModelFamily
+        return [lambda: ModelFamily([stock.model(1), stock.model(1)])]
     if name == 'Fitter':
         from rsatoolbox.model.fitter import Fitter, fit_regress
         return [lambda: Fitter(fit_regress, ridge_weight=0.1)]
